@@ -215,6 +215,13 @@ impl Block for AuDecode {
                 self.state = DecodeState::WaitingHeader(data_offset as usize);
             }
             DecodeState::WaitingHeader(data_offset) => {
+                if data_offset < 24 {
+                    // Magic, offset, size, encoding, rate, and channels are
+                    // six 32 bit words. The data can't start before that.
+                    return Err(Error::msg(format!(
+                        ".au data offset {data_offset} is inside the header"
+                    )));
+                }
                 let header_rest_len = data_offset - 8;
                 if i.len() < header_rest_len {
                     return Ok(BlockRet::WaitForStream(&self.src, header_rest_len));
